@@ -47,7 +47,7 @@ open Hive.Events
 /-- The `Hook` call that returned handle `h` attached a hook to event `e` and no `Unhook` of `h`
 follows it in `pre`. -/
 def AttachedBefore (pre : List Op) (e h : Nat) : Prop :=
-  ∃ p1 m b p2, pre = p1 ++ .hook e m b :: p2 ∧ (step (final init p1) (.hook e m b)).2 = .hk h ∧
+  ∃ p1 m b p p2, pre = p1 ++ .hook e m b p :: p2 ∧ (step (final init p1) (.hook e m b p)).2 = .hk h ∧
     ∀ op ∈ p2, op ≠ .unhook h
 
 /-- The event's own limit lets the next Trigger through. -/
@@ -57,7 +57,7 @@ def EventPasses (s : St) (e : Nat) : Prop := ∃ ev, s.evs[e]? = some ev ∧ exc
 def HookBudget (s : St) (h : Nat) : Prop := ∃ hk, s.hooks[h]? = some hk ∧ exceeds hk.max (hk.count + 1) = false
 
 theorem callOf_some {e a : Nat} {hk : Hook} {c : Call} (h : callOf e a hk = some c) :
-    hk.ev = e ∧ hk.attached = true ∧ exceeds hk.max (hk.count + 1) = false ∧ c = ⟨hk.handle, a, hk.pooled⟩ := by
+    hk.ev = e ∧ hk.attached = true ∧ exceeds hk.max (hk.count + 1) = false ∧ c = ⟨.call, hk.handle, a, hk.pooled⟩ := by
   unfold callOf at h
   by_cases h1 : (hk.ev != e || !hk.attached) = true
   · simp [h1] at h
@@ -69,8 +69,45 @@ theorem callOf_some {e a : Nat} {hk : Hook} {c : Call} (h : callOf e a hk = some
       exact ⟨h1.1, h1.2, by simpa using h2, h.symm⟩
 
 theorem callOf_of {e a : Nat} {hk : Hook} (h1 : hk.ev = e) (h2 : hk.attached = true)
-    (h3 : exceeds hk.max (hk.count + 1) = false) : callOf e a hk = some ⟨hk.handle, a, hk.pooled⟩ := by
+    (h3 : exceeds hk.max (hk.count + 1) = false) : callOf e a hk = some ⟨.call, hk.handle, a, hk.pooled⟩ := by
   simp [callOf, h1, h2, h3]
+
+/-- The invocations among the log entries. -/
+def isCall (c : Call) : Bool := c.kind == .call
+
+theorem preCalls_not_call (p : Bool) (e a : Nat) (hk : Hook) : (preCalls p e a hk).filter isCall = [] := by
+  unfold preCalls
+  cases p <;> cases hk.pre <;> simp [isCall]
+
+theorem entries_filter (p : Bool) (e a : Nat) (hk : Hook) :
+    (entriesOf p e a hk).filter isCall = (callOf e a hk).toList := by
+  unfold entriesOf
+  cases hc : callOf e a hk with
+  | none => simp
+  | some c =>
+    simp only [List.filter_append, preCalls_not_call, List.nil_append, Option.toList_some]
+    rw [(callOf_some hc).2.2.2]; simp [isCall]
+
+theorem entries_arg (p : Bool) (e a : Nat) (hk : Hook) : ∀ c ∈ entriesOf p e a hk, c.arg = a := by
+  intro c hc
+  unfold entriesOf at hc
+  cases hco : callOf e a hk with
+  | none => simp [hco] at hc
+  | some c' =>
+    simp only [hco, List.mem_append, List.mem_singleton] at hc
+    rcases hc with hc | rfl
+    · unfold preCalls at hc
+      simp only [List.mem_append] at hc
+      rcases hc with hc | hc
+      · split at hc <;> simp at hc; rw [hc]
+      · split at hc <;> simp at hc; rw [hc]
+    · rw [(callOf_some hco).2.2.2]
+
+theorem flatMap_filter {α β : Type} (l : List α) (f : α → List β) (q : β → Bool) :
+    (l.flatMap f).filter q = l.flatMap (fun x => (f x).filter q) := by
+  induction l with
+  | nil => rfl
+  | cons a l ih => simp [List.flatMap_cons, List.filter_append, ih]
 
 theorem calls_sorted (e a : Nat) (l : List Hook) (hh : ∀ (k : Nat) (hk : Hook), l[k]? = some hk → hk.handle = k) :
     ((l.flatMap (fun h => (callOf e a h).toList)).map (·.handle)).Pairwise (· < ·) ∧
@@ -105,16 +142,17 @@ theorem calls_sorted (e a : Nat) (l : List Hook) (hh : ∀ (k : Nat) (hk : Hook)
       · have hd' : callOf e a x = some c := by simpa using hc
         rw [(callOf_some hd').2.2.2]; simp only; omega
 
-/-- **C15, Trigger (sequential histories of New/Hook/Unhook/Trigger with any limits and pooled
-hooks).**  For the `Trigger(e, a)` issued after history `pre`: its invocations are in strictly
-increasing handle order (= attachment order, no hook twice), all carry the argument `a`, and hook
-`h` is invoked **iff** it was attached to `e` by a `Hook` call in `pre`, was not unhooked afterwards,
-and neither the event's nor the hook's own trigger limit is used up. -/
+/-- **C15, Trigger (sequential histories of New/Hook/Unhook/Trigger with any limits, pooled hooks
+and pre-trigger functions).**  For the `Trigger(e, a)` issued after history `pre`: every log entry
+carries the argument `a`; the invocations are in strictly increasing handle order (= attachment
+order, no hook twice); and hook `h` is invoked **iff** it was attached to `e` by a `Hook` call in
+`pre`, was not unhooked afterwards, and neither the event's nor the hook's own trigger limit is
+used up. -/
 theorem C15_trigger_exactly_once (pre : List Op) (e a : Nat) (hnl : noLink pre)
     (he : e < (final init pre).evs.length) :
     ∃ cs, (step (final init pre) (.trigger e a)).2 = .calls cs ∧
-      (cs.map (·.handle)).Pairwise (· < ·) ∧ (∀ c ∈ cs, c.arg = a) ∧
-      ∀ h, (∃ c ∈ cs, c.handle = h) ↔
+      ((cs.filter isCall).map (·.handle)).Pairwise (· < ·) ∧ (∀ c ∈ cs, c.arg = a) ∧
+      ∀ h, (∃ c ∈ cs, c.kind = .call ∧ c.handle = h) ↔
         (EventPasses (final init pre) e ∧ AttachedBefore pre e h ∧ HookBudget (final init pre) h) := by
   have hinv := hinv_of_noLink pre hnl
   obtain ⟨hnli, htr, hor⟩ := hinv
@@ -134,9 +172,16 @@ theorem C15_trigger_exactly_once (pre : List Op) (e a : Nat) (hnl : noLink pre)
       rw [hev] at hev'; cases hev'; rw [hx] at hp; cases hp
   · simp only [hx, Bool.false_eq_true, if_false] at t3
     rw [t3.2.2]
-    have hmem : ∀ c, c ∈ s.hooks.flatMap (fun h => (callOf e a h).toList) ↔
+    have hfil : (s.hooks.flatMap (entriesOf ev.pre e a)).filter isCall =
+        s.hooks.flatMap (fun h => (callOf e a h).toList) := by
+      rw [flatMap_filter]; congr 1; funext hk; exact entries_filter ev.pre e a hk
+    have hmem : ∀ c, (c ∈ s.hooks.flatMap (entriesOf ev.pre e a) ∧ c.kind = .call) ↔
         ∃ (k : Nat) (hk : Hook), s.hooks[k]? = some hk ∧ callOf e a hk = some c := by
       intro c
+      have : (c ∈ s.hooks.flatMap (entriesOf ev.pre e a) ∧ c.kind = .call) ↔
+          c ∈ (s.hooks.flatMap (entriesOf ev.pre e a)).filter isCall := by
+        simp [List.mem_filter, isCall]
+      rw [this, hfil]
       simp only [List.mem_flatMap, Option.mem_toList]
       constructor
       · intro ⟨hk, hm, hc⟩
@@ -144,24 +189,25 @@ theorem C15_trigger_exactly_once (pre : List Op) (e a : Nat) (hnl : noLink pre)
         exact ⟨k, hk, hk', hc⟩
       · intro ⟨k, hk, hk', hc⟩
         exact ⟨hk, List.mem_of_getElem? hk', hc⟩
-    refine ⟨(calls_sorted e a s.hooks hnli.handle).1, ?_, ?_⟩
+    refine ⟨by rw [hfil]; exact (calls_sorted e a s.hooks hnli.handle).1, ?_, ?_⟩
     · intro c hc
-      obtain ⟨k, hk, _, hco⟩ := (hmem c).mp hc
-      rw [(callOf_some hco).2.2.2]
+      obtain ⟨hk, _, hce⟩ := List.mem_flatMap.mp hc
+      exact entries_arg ev.pre e a hk c hce
     · intro h
       constructor
-      · intro ⟨c, hc, hch⟩
-        obtain ⟨k, hk, hkk, hco⟩ := (hmem c).mp hc
+      · intro ⟨c, hc, hck, hch⟩
+        obtain ⟨k, hk, hkk, hco⟩ := (hmem c).mp ⟨hc, hck⟩
         obtain ⟨c1, c2, c3, c4⟩ := callOf_some hco
         have hkh : k = h := by rw [← hch, c4]; exact (hnli.handle k hk hkk).symm
         subst hkh
         refine ⟨⟨ev, hev, by simpa using hx⟩, ?_, ⟨hk, hkk, c3⟩⟩
         obtain ⟨p1, p2, hdec, hout⟩ := hor k hk hkk
-        obtain ⟨hk2, hhk2, _, _, _, hiff⟩ := htr p1 hk.ev hk.max hk.pooled p2 k hdec hout
+        obtain ⟨hk2, hhk2, _, _, _, _, hiff⟩ := htr p1 hk.ev hk.max hk.pooled hk.pre p2 k hdec hout
         rw [hkk] at hhk2; cases hhk2
-        exact ⟨p1, hk.max, hk.pooled, p2, by rw [← c1]; exact hdec, by rw [← c1]; exact hout, (hiff.mp c2).1⟩
-      · intro ⟨_, ⟨p1, m, b, p2, hdec, hout, hno⟩, ⟨hk, hkk, hb⟩⟩
-        obtain ⟨hk2, hhk2, h1, _, _, hiff⟩ := htr p1 e m b p2 h hdec hout
+        exact ⟨p1, hk.max, hk.pooled, hk.pre, p2, by rw [← c1]; exact hdec, by rw [← c1]; exact hout,
+          (hiff.mp c2).1⟩
+      · intro ⟨_, ⟨p1, m, b, p, p2, hdec, hout, hno⟩, ⟨hk, hkk, hb⟩⟩
+        obtain ⟨hk2, hhk2, h1, _, _, _, hiff⟩ := htr p1 e m b p p2 h hdec hout
         rw [hkk] at hhk2; cases hhk2
         have hnex : ¬ exceeded hk := by
           intro hex
@@ -170,18 +216,52 @@ theorem C15_trigger_exactly_once (pre : List Op) (e a : Nat) (hnl : noLink pre)
             exact ⟨Nat.lt_succ_of_lt hex.2, hex.1⟩
           rw [hb] at this; cases this
         have hatt := hiff.mpr ⟨hno, hnex⟩
-        refine ⟨⟨hk.handle, a, hk.pooled⟩, (hmem _).mpr ⟨h, hk, hkk, callOf_of h1 hatt hb⟩, ?_⟩
-        exact hnli.handle h hk hkk
+        obtain ⟨hc1, hc2⟩ := (hmem ⟨.call, hk.handle, a, hk.pooled⟩).mpr ⟨h, hk, hkk, callOf_of h1 hatt hb⟩
+        exact ⟨_, hc1, hc2, hnli.handle h hk hkk⟩
+
+/-- **C15, pre-trigger functions (same histories).**  The log of `Trigger(e, a)` is, for the invoked
+hooks in attachment order, the event's pre-trigger call (if the event was created
+`WithPreTriggerFunc`), the hook's pre-trigger call (if the hook was), then the invocation itself
+(or its submission to the pool) — all with the argument `a`; pre-trigger functions run for no other
+hook. -/
+theorem C15_pre_trigger (pre : List Op) (e a : Nat) (hnl : noLink pre) (ev : Ev)
+    (hev : (final init pre).evs[e]? = some ev) (hpass : exceeds ev.max (ev.count + 1) = false) :
+    (step (final init pre) (.trigger e a)).2 = .calls
+      (((final init pre).hooks.filter (fun hk => (callOf e a hk).isSome)).flatMap (fun hk =>
+        (if ev.pre then [⟨.preEv, e, a, false⟩] else []) ++
+        (if hk.pre then [⟨.preHook, hk.handle, a, false⟩] else []) ++
+        [⟨.call, hk.handle, a, hk.pooled⟩])) := by
+  have hnli := (hinv_of_noLink pre hnl).nl
+  generalize final init pre = s at hev hnli
+  have he : e < s.evs.length := getElem?_lt hev
+  obtain ⟨_, _, t3⟩ := trig_nolink s.evs.length s e a hnli.nolinks ev hev
+  simp only [step, he, if_true]
+  generalize trig (s.evs.length + 1) s e a = r at t3
+  simp only [hpass, Bool.false_eq_true, if_false] at t3
+  rw [t3.2.2]
+  congr 1
+  generalize s.hooks = l
+  induction l with
+  | nil => rfl
+  | cons hk l ih =>
+    simp only [List.flatMap_cons, List.filter_cons]
+    cases hc : callOf e a hk with
+    | none => simp [entriesOf, hc, ih]
+    | some c =>
+      simp only [entriesOf, hc, Option.isSome_some, if_true, List.flatMap_cons, ih, preCalls]
+      rw [(callOf_some hc).2.2.2]
 
 /-- Non-vacuity: hypotheses and conclusion of `C15_trigger_exactly_once` on a concrete history — hook 0
 was unhooked, hook 1 (pooled, limit 1) is used up by the first trigger, hooks 2 and 3 are invoked
 in attachment order with the second trigger's argument. -/
 example :
-    let pre : List Op := [.new 0, .hook 0 0 false, .hook 0 1 true, .hook 0 0 false, .unhook 0, .trigger 0 5,
-      .hook 0 3 false]
+    let pre : List Op := [.new 0 true, .hook 0 0 false false, .hook 0 1 true false, .hook 0 0 false true, .unhook 0,
+      .trigger 0 5, .hook 0 3 false false]
     noLink pre ∧ 0 < (final init pre).evs.length ∧
-    (step (final init pre) (.trigger 0 6)).2 = .calls [⟨2, 6, false⟩, ⟨3, 6, false⟩] ∧
-    (step (final init (pre.take 5)) (.trigger 0 5)).2 = .calls [⟨1, 5, true⟩, ⟨2, 5, false⟩] := by
+    (step (final init pre) (.trigger 0 6)).2 = .calls
+      [⟨.preEv, 0, 6, false⟩, ⟨.preHook, 2, 6, false⟩, ⟨.call, 2, 6, false⟩, ⟨.preEv, 0, 6, false⟩, ⟨.call, 3, 6, false⟩] ∧
+    (step (final init (pre.take 5)) (.trigger 0 5)).2 = .calls
+      [⟨.preEv, 0, 5, false⟩, ⟨.call, 1, 5, true⟩, ⟨.preEv, 0, 5, false⟩, ⟨.preHook, 2, 5, false⟩, ⟨.call, 2, 5, false⟩] := by
   refine ⟨?_, by decide, by decide, by decide⟩
   intro op hop
   simp only [List.mem_cons, List.mem_nil_iff, or_false] at hop
@@ -278,7 +358,7 @@ theorem C15_link (ops : List Op) (src t : Nat) :
 
 /-- Non-vacuity: re-linking moves the single link hook; the former target keeps none. -/
 example :
-    let s := final init [.new 0, .new 0, .new 0, .link 2 0, .link 2 1, .link 2 1]
+    let s := final init [.new 0 false, .new 0 false, .new 0 false, .link 2 0, .link 2 1, .link 2 1]
     linkHooksOn s 0 2 = 0 ∧ linkHooksOn s 1 2 = 1 ∧ currentTarget s 2 = some 1 := by
   decide
 
@@ -383,8 +463,8 @@ theorem C15_max_trigger_count_seq (ops : List Op) :
 
 /-- Non-vacuity: a hook limited to 2 on an event limited to 3, five triggers. -/
 example :
-    let s := final init [.new 3, .hook 0 2 false, .hook 0 0 false, .trigger 0 1, .trigger 0 2, .trigger 0 3,
-      .trigger 0 4, .trigger 0 5]
+    let s := final init [.new 3 false, .hook 0 2 false false, .hook 0 0 false false, .trigger 0 1, .trigger 0 2,
+      .trigger 0 3, .trigger 0 4, .trigger 0 5]
     s.hooks.map (fun h => (h.count, h.fired, h.attached)) = [(3, 2, false), (3, 3, true)] ∧
     s.evs.map (fun e => (e.count, e.passed)) = [(5, 3)] := by
   decide
